@@ -521,6 +521,8 @@ func (env *Env) elabCall(x *ECall) Val {
 			t = app("sl-base", v.T)
 		}
 		return Val{T: app(">", t, e.get(env.Old, topVar)), Ty: tyBool}
+	case "watermark":
+		return Val{T: e.get(env.St, topVar), Ty: tyInt}
 	case "allocated":
 		v := arg(0)
 		return Val{T: and(app("<=", v.T, e.get(env.St, topVar)), app(">", v.T, "0")), Ty: tyBool}
